@@ -28,18 +28,17 @@ class WrapDict(OrderedDict):
             yield k, v
 
     def keys(self):
-        for k in self._other.keys():
-            if k not in self._mine and k not in self._gone:
-                yield k
-
-        for k in self._mine.keys():
-            yield k
+        # a list, as len(d.keys()) is asked of dictionaries of variables
+        return [
+            k for k in self._other.keys()
+            if k not in self._mine and k not in self._gone
+        ] + list(self._mine.keys())
 
     def __len__(self):
-        return len(list(self.keys()))
+        return len(self.keys())
 
     def __iter__(self):
-        return self.keys()
+        return iter(self.keys())
 
     def __contains__(self, k):
         for myk in self.keys():
